@@ -621,3 +621,275 @@ Theorem fault_never_success_file v p m k s' :
   out_file_mode q v p (init m k) = Ok s' -> fired s' = false.
 Proof. intro H. apply (out_fired v RFile false p (init m k) s' H). Qed.
 End Faults.
+
+(* ---------- (2) atomicity of the repaired writer: the dry run rejects everything the real run would ---------- *)
+Definition tk (s : st) : st := snd (tick s).
+Lemma tk_fs s : fs (tk s) = fs s. Proof. reflexivity. Qed.
+Lemma tk_fault s : fault (tk s) = fault s. Proof. reflexivity. Qed.
+
+Lemma op_stat_nf p s : fault s = None -> op_stat p s = (SR (stat (fs s) p), tk s).
+Proof. intro H. unfold op_stat, tk, tick. rewrite H. reflexivity. Qed.
+
+Lemma mkdir_ok c par s : fault s = None -> stat (fs s) par = SNode Dir -> lookup (c :: par) (fs s) = None ->
+  op_mkdir (c :: par) s = Ok (with_fs (tk s) (set_node (c :: par) Dir (fs s))).
+Proof. intros H S L. unfold op_mkdir, tk, tick. rewrite H. cbn [fs snd]. rewrite S, L. reflexivity. Qed.
+
+Lemma rm_ok p s : fault s = None -> stat (fs s) p <> SNotDir ->
+  exists s', op_removeall p s = Ok s' /\ fault s' = None /\
+    fs s' = match stat (fs s) p with SNode _ => remove_subtree p (fs s) | _ => fs s end.
+Proof.
+  intros H S. unfold op_removeall, tick. rewrite H. cbn [fs].
+  destruct (stat (fs s) p); try congruence; eexists; repeat split; reflexivity || exact H.
+Qed.
+
+Lemma write_ok q c par b s : fault s = None -> stat (fs s) par = SNode Dir -> lookup (c :: par) (fs s) <> Some Dir ->
+  exists s', write_file q (c :: par) b s = Ok s'.
+Proof.
+  intros H S L. unfold write_file, tick, with_fs. rewrite H. cbn [fs nops fault fired]. rewrite S.
+  destruct (lookup (c :: par) (fs s)) as [[?|]|]; try congruence; rewrite ?H; cbn; eexists; reflexivity.
+Qed.
+
+Lemma stat_remove p m x : underb p x = false -> stat (remove_subtree p m) x = stat m x.
+Proof.
+  induction x as [|d x IH]; intro U; [reflexivity|].
+  assert (U' : underb p x = false).
+  { destruct (underb p x) eqn:E; auto. rewrite (underb_cons _ d _ E) in U. discriminate. }
+  cbn [stat]. rewrite (IH U'). rewrite lookup_remove by discriminate. rewrite U. reflexivity.
+Qed.
+
+Definition of_lookup (o : option node) : statres := match o with Some n => SNode n | None => SNoEnt end.
+
+Lemma stat_of_lookup m c par : wf m -> (stat m par = SNode Dir \/ stat m par = SNoEnt) ->
+  stat m (c :: par) = of_lookup (lookup (c :: par) m).
+Proof.
+  intros W [S|S]; cbn [stat]; rewrite S; [reflexivity|].
+  destruct (lookup (c :: par) m) eqn:L; [|reflexivity].
+  assert (P : lookup par m = Some Dir) by (apply (W c par); congruence).
+  rewrite (stat_some _ _ _ W P) in S. discriminate.
+Qed.
+
+Fixpoint wfv (v : val) : Prop :=
+  match v with
+  | VDict es => NoDup (map fst es) /\
+      (fix all (es : list (key * val)) : Prop := match es with [] => True | kv :: r => wfv (snd kv) /\ all r end) es
+  | VTup _ d f => match d with Some x => wfv x | None => True end /\ match f with Some x => wfv x | None => True end
+  | _ => True
+  end.
+Fixpoint allwf (es : list (key * val)) : Prop := match es with [] => True | kv :: r => wfv (snd kv) /\ allwf r end.
+Lemma wfv_dict es : wfv (VDict es) <-> NoDup (map fst es) /\ allwf es.
+Proof. cbn [wfv]. assert (E : forall es, (fix all (es : list (key * val)) : Prop := match es with [] => True | kv :: r => wfv (snd kv) /\ all r end) es = allwf es) by (induction es0; simpl; congruence). rewrite E. tauto. Qed.
+
+Local Notation off := quirks_off.
+
+(* the relation between the state the dry run saw (s0) and the state the real run is in (s), at entry path c :: par *)
+Record sim (c : name) (par : path) (s0 s : st) : Prop := {
+  sim_f0 : fault s0 = None; sim_f : fault s = None;
+  sim_w0 : wf (fs s0); sim_w : wf (fs s);
+  sim_par0 : stat (fs s0) par = SNode Dir \/ stat (fs s0) par = SNoEnt;
+  sim_par : stat (fs s) par = SNode Dir;
+  sim_agree : forall x, underb (c :: par) x = true -> lookup x (fs s0) = lookup x (fs s)
+}.
+
+Lemma sim_stat c par s0 s : sim c par s0 s ->
+  stat (fs s0) (c :: par) = of_lookup (lookup (c :: par) (fs s)) /\ stat (fs s) (c :: par) = of_lookup (lookup (c :: par) (fs s)).
+Proof.
+  intros [? ? W0 W P0 P A]. split.
+  - rewrite (stat_of_lookup _ _ _ W0 P0). rewrite (A _ (underb_refl _)). reflexivity.
+  - apply stat_of_lookup; auto.
+Qed.
+
+Lemma sim_tk c par s0 s : sim c par s0 s -> sim c par (tk s0) (tk s).
+Proof. intros [? ? ? ? ? ? ?]. constructor; rewrite ?tk_fs, ?tk_fault; auto. Qed.
+
+Definition mainP (v : val) : Prop := forall r c par s0 s0' s, wfv v -> sim c par s0 s ->
+  out off r true v (c :: par) s0 = Ok s0' -> exists s', out off r false v (c :: par) s = Ok s'.
+
+Lemma main_file v c par s0 s0' s : sim c par s0 s ->
+  out_file off true v (c :: par) s0 = Ok s0' -> exists s', out_file off false v (c :: par) s = Ok s'.
+Proof.
+  intros S. destruct (sim_stat _ _ _ _ S) as [E0 E]. pose proof S as [F0 F _ _ _ P _].
+  unfold out_file. cbn [q_kind_unchecked off]. rewrite (op_stat_nf _ _ F0), (op_stat_nf _ _ F), E0, E.
+  assert (G : forall b,
+    bind match of_lookup (lookup (c :: par) (fs s)) with SNode Dir => Err (tk s0) | SNotDir => Err (tk s0) | _ => Ok (tk s0) end
+         (fun s1 => Ok s1) = Ok s0' ->
+    exists s', bind match of_lookup (lookup (c :: par) (fs s)) with SNode Dir => Err (tk s) | SNotDir => Err (tk s) | _ => Ok (tk s) end
+         (fun s1 => write_file off (c :: par) b s1) = Ok s').
+  { intros b H. destruct (lookup (c :: par) (fs s)) as [[?|]|] eqn:L; cbn [of_lookup bind] in *; try discriminate;
+      apply write_ok; rewrite ?tk_fs, ?tk_fault; auto; congruence. }
+  destruct v; try discriminate; apply G.
+Qed.
+
+Lemma main_do_dir c par s0 s0' s : sim c par s0 s -> do_dir off true (c :: par) s0 = Ok s0' ->
+  s0' = tk s0 /\ (stat (fs s0) (c :: par) = SNode Dir \/ stat (fs s0) (c :: par) = SNoEnt) /\
+  exists s1, do_dir off false (c :: par) s = Ok s1 /\ fault s1 = None /\ wf (fs s1) /\
+    stat (fs s1) (c :: par) = SNode Dir /\ (forall x, x <> c :: par -> lookup x (fs s1) = lookup x (fs s)).
+Proof.
+  intros S. destruct (sim_stat _ _ _ _ S) as [E0 E]. pose proof S as [F0 F _ W _ P _].
+  unfold do_dir. cbn [q_kind_unchecked q_stat_err_ignored q_dry_mkdir off andb negb].
+  rewrite (op_stat_nf _ _ F0), (op_stat_nf _ _ F), E0, E.
+  destruct (lookup (c :: par) (fs s)) as [[?|]|] eqn:L; cbn [of_lookup]; try discriminate.
+  - intros [= <-]. repeat split; auto. exists (tk s). repeat split; auto.
+  - intros [= <-]. repeat split; auto.
+    rewrite mkdir_ok; rewrite ?tk_fs, ?tk_fault; auto.
+    eexists; split; [reflexivity|]. cbn [with_fs fs fault]. repeat split; auto.
+    + apply wf_set; auto. apply stat_node; auto.
+    + apply stat_some. apply wf_set; auto. apply stat_node; auto. apply lookup_set_same.
+    + intros x N. apply lookup_set_other; auto.
+Qed.
+
+Lemma bind_ok r f s' : bind r f = Ok s' -> exists s1, r = Ok s1 /\ f s1 = Ok s'.
+Proof. destruct r; simpl; try discriminate. eauto. Qed.
+
+Lemma bind_intro r f s1 s' : r = Ok s1 -> f s1 = Ok s' -> bind r f = Ok s'.
+Proof. intros -> H. exact H. Qed.
+
+Lemma dry_pure_ok v r p s s' : out off r true v p s = Ok s' -> fs s' = fs s.
+Proof. intro H. pose proof (dry_pure off v r p s eq_refl) as D. rewrite H in D. exact D. Qed.
+Lemma fault_out_ok dry v r p s s' : out off r dry v p s = Ok s' -> fault s' = fault s.
+Proof. intro H. pose proof (fault_out off dry v r p s) as D. rewrite H in D. exact D. Qed.
+Lemma wf_out_ok dry v r p s s' : out off r dry v p s = Ok s' -> wf (fs s) -> wf (fs s').
+Proof. intros H W. pose proof (wf_out off dry v r p s W) as D. rewrite H in D. exact D. Qed.
+Lemma frame_out_ok dry v r p s s' : out off r dry v p s = Ok s' ->
+  forall x, underb p x = false -> lookup x (fs s') = lookup x (fs s).
+Proof. intros H. pose proof (frame_out off dry p v r p s eq_refl (underb_refl _)) as D. rewrite H in D. exact D. Qed.
+
+Lemma key_neq_paths (b b' : bytes) : KStr b <> KStr b' -> b <> b'.
+Proof. congruence. Qed.
+
+Lemma main_loop es : Forall (fun kv => mainP (snd kv)) es -> allwf es -> NoDup (map fst es) ->
+  forall p s0 s0' s, fault s0 = None -> fault s = None -> wf (fs s0) -> wf (fs s) ->
+    (stat (fs s0) p = SNode Dir \/ stat (fs s0) p = SNoEnt) -> stat (fs s) p = SNode Dir ->
+    (forall b x, In (KStr b) (map fst es) -> underb (b :: p) x = true -> lookup x (fs s0) = lookup x (fs s)) ->
+    out_loop off true p es s0 = Ok s0' -> exists s', out_loop off false p es s = Ok s'.
+Proof.
+  induction 1 as [|[k v'] rest Hv _ IH]; intros AW ND p s0 s0' s F0 F W0 W P0 P A; cbn [out_loop].
+  - eauto.
+  - destruct AW as [Wv AW]. inversion ND as [|? ? NI ND']; subst. cbn [snd fst map] in *.
+    destruct (is_multi v'); [discriminate|]. destruct k as [b|]; [|discriminate].
+    unfold join. cbn [q_name_escapes off]. destruct (simple_name b); [|discriminate].
+    intro H. apply bind_ok in H as (s01 & H1 & H2).
+    assert (S : sim b p s0 s).
+    { constructor; auto. intros x U. apply (A b x); auto. left; reflexivity. }
+    destruct (Hv REntry b p s0 s01 s Wv S H1) as [s1 R1].
+    cut (exists s', out_loop off false p rest s1 = Ok s'); [intros [s' E]; exists s'; apply (bind_intro _ _ s1); [exact R1|exact E]|].
+    pose proof (dry_pure_ok _ _ _ _ _ H1) as D.
+    pose proof (fault_out_ok _ _ _ _ _ _ H1) as D2.
+    pose proof (fault_out_ok _ _ _ _ _ _ R1) as D3.
+    pose proof (wf_out_ok _ _ _ _ _ _ R1 W) as D4.
+    pose proof (frame_out_ok _ _ _ _ _ _ R1) as D5.
+    apply (IH AW ND' p s01 s0' s1); try congruence.
+    + rewrite D; auto.
+    + exact D4.
+    + apply stat_some; auto. rewrite D5 by apply underb_child_self. apply stat_node; auto.
+    + intros b' x I U. rewrite D. rewrite D5.
+      * apply (A b' x); auto. right; auto.
+      * apply (underb_siblings b' b p x); auto. intros ->. contradiction.
+Qed.
+
+Lemma main_dirv v c par s0 s0' s :
+  (forall es, v = VDict es -> Forall (fun kv => mainP (snd kv)) es) -> wfv v -> sim c par s0 s ->
+  out_dirv off true v (c :: par) s0 = Ok s0' -> exists s', out_dirv off false v (c :: par) s = Ok s'.
+Proof.
+  intros HF Wv S. unfold out_dirv. destruct v; try discriminate.
+  - intro H. destruct (main_do_dir _ _ _ _ _ S H) as (_ & _ & s1 & R & _). eauto.
+  - intro H. apply bind_ok in H as (s01 & H1 & H2).
+    destruct (main_do_dir _ _ _ _ _ S H1) as (-> & P0 & s1 & R & F1 & W1 & P1 & A1).
+    cut (exists s', out_loop off false (c :: par) es s1 = Ok s'); [intros [s' E]; exists s'; apply (bind_intro _ _ s1); [exact R|exact E]|].
+    apply wfv_dict in Wv as [ND AW]. pose proof S as [F0 F W0 W _ _ A].
+    apply (main_loop es (HF es eq_refl) AW ND (c :: par) (tk s0) s0' s1); rewrite ?tk_fs, ?tk_fault; auto.
+    intros b x I U. rewrite A1.
+    + apply A. eapply underb_up; eauto.
+    + intros ->. rewrite underb_child_self in U. discriminate.
+Qed.
+
+Lemma main_files d f c par s0 s0' s :
+  optP mainP d -> optP mainP f ->
+  match d with Some x => wfv x | None => True end -> match f with Some x => wfv x | None => True end ->
+  sim c par s0 s ->
+  out_files off true d f (c :: par) s0 = Ok s0' -> exists s', out_files off false d f (c :: par) s = Ok s'.
+Proof.
+  intros Hd Hf Wd Wf S. unfold out_files. destruct d as [dv|].
+  - rewrite <- !out_RDir. apply Hd; auto.
+  - destruct f as [fv|]; [|discriminate]. apply main_file; auto.
+Qed.
+
+Lemma main_existing w d f c par s0 s0' s :
+  optP mainP d -> optP mainP f ->
+  match d with Some x => wfv x | None => True end -> match f with Some x => wfv x | None => True end ->
+  sim c par s0 s -> (w = WRemove \/ exists n, stat (fs s) (c :: par) = SNode n) ->
+  out_existing off true w d f (c :: par) s0 = Ok s0' -> exists s', out_existing off false w d f (c :: par) s = Ok s'.
+Proof.
+  intros Hd Hf Wd Wf S HW. unfold out_existing. cbn [q_replace_unvalidated off].
+  destruct (sim_stat _ _ _ _ S) as [E0 E]. pose proof S as [F0 F W0 W P0 P A].
+  destruct w; try discriminate; eauto.
+  - destruct (isSome d || isSome f); [discriminate|]. intros _.
+    destruct (rm_ok (c :: par) s F) as (s' & R & _); eauto.
+    rewrite E. destruct (lookup (c :: par) (fs s)); discriminate.
+  - destruct (eqb (isSome d) (isSome f)); [discriminate|].
+    destruct (out_files off true d f (c :: par) _) as [sx| |] eqn:V; try discriminate. intros _.
+    destruct HW as [HW|[n HW]]; [discriminate|].
+    destruct (rm_ok (c :: par) s F) as (s2 & R & F2 & M2); [rewrite HW; discriminate|].
+    rewrite HW in M2.
+    cut (exists s', out_files off false d f (c :: par) s2 = Ok s');
+      [intros [s' X]; exists s'; apply (bind_intro _ _ s2); [exact R|exact X]|].
+    eapply (main_files d f c par _ sx s2 Hd Hf Wd Wf); [|exact V].
+    constructor; cbn [fs fault]; auto.
+    + apply wf_remove; auto.
+    + rewrite M2. apply wf_remove; auto.
+    + rewrite stat_remove by apply underb_child_self. auto.
+    + rewrite M2. rewrite stat_remove by apply underb_child_self. auto.
+    + intros x U. rewrite M2. destruct x as [|e x]; [discriminate U|].
+      rewrite !lookup_remove by discriminate. rewrite U. reflexivity.
+  - destruct d as [dv|]; [|discriminate]. rewrite <- !out_RDir. apply Hd; auto.
+Qed.
+
+Lemma main_all : forall v, mainP v.
+Proof.
+  induction v using val_ind'; intros r c par s0 s0' s Wv S;
+    destruct r; rewrite ?out_REntry, ?out_RDir, ?out_RFile; cbn [q_skip_unsupported q_multi_panic off];
+    try (apply main_file; assumption); try discriminate;
+    try (apply main_dirv; auto; intros; discriminate).
+  - apply main_dirv; auto. intros es' [= <-]. exact H.
+  - apply main_dirv; auto. intros es' [= <-]. exact H.
+  - destruct Wv as [Wd Wf]. unfold out_tuple. destruct ifx as [conf|]; [|apply main_files; auto].
+    destruct conf; try discriminate. destruct (word_of b) as [w|]; [|discriminate].
+    destruct (match w with WMerge => isSome f | _ => false end); [discriminate|].
+    destruct (sim_stat _ _ _ _ S) as [E0 E]. pose proof S as [F0 F _ _ _ _ _].
+    rewrite (op_stat_nf _ _ F0), (op_stat_nf _ _ F), E0, E.
+    pose proof (sim_tk _ _ _ _ S) as S'.
+    destruct (lookup (c :: par) (fs s)) as [n|] eqn:L; cbn [of_lookup].
+    + apply main_existing; auto. right. exists n. rewrite tk_fs, E. reflexivity.
+    + destruct w; try (apply main_files; auto). apply main_existing; auto.
+Qed.
+
+Lemma dirv_parent_missing v c par s : fault s = None -> stat (fs s) par <> SNode Dir ->
+  match out_dirv off false v (c :: par) s with Ok _ => False | Err s' | Panic s' => fs s' = fs s end.
+Proof.
+  intros F P.
+  assert (G : match do_dir off false (c :: par) s with Ok _ => False | Err s' | Panic s' => fs s' = fs s end).
+  { unfold do_dir. rewrite (op_stat_nf _ _ F). cbn [q_kind_unchecked q_stat_err_ignored q_dry_mkdir off andb negb stat].
+    destruct (stat (fs s) par) as [[?|]| |] eqn:SP; try congruence; try reflexivity.
+    unfold op_mkdir, tick. rewrite tk_fault, F. cbn [fs tk tick snd]. rewrite SP. reflexivity. }
+  unfold out_dirv. destruct v; try reflexivity; try exact G.
+  destruct (do_dir off false (c :: par) s); cbn [bind]; auto. contradiction.
+Qed.
+
+(* atomicity of the repaired writer *)
+Theorem atomic_off v c par m s' : wfv v -> wf m ->
+  out_dir_mode off v (c :: par) (init m None) = Err s' -> fs s' = m.
+Proof.
+  intros Wv W. unfold out_dir_mode.
+  assert (G : bind (out off RDir true v (c :: par) (init m None)) (fun s1 => out off RDir false v (c :: par) s1) = Err s' -> fs s' = m).
+  { destruct (out off RDir true v (c :: par) (init m None)) as [s1| |] eqn:D; cbn [bind].
+    - pose proof (dry_pure_ok _ _ _ _ _ D) as D1. pose proof (fault_out_ok _ _ _ _ _ _ D) as D2. cbn [init fs fault] in D1, D2.
+      destruct (stat m par) as [[?|]| |] eqn:SP.
+      2: { intro R. exfalso.
+           assert (S : sim c par (init m None) s1).
+           { constructor; cbn [init fs fault]; rewrite ?D1; auto. }
+           destruct (main_all v RDir c par _ _ _ Wv S D) as [s2 R2]. congruence. }
+      all: rewrite out_RDir; pose proof (dirv_parent_missing v c par s1 D2) as X; rewrite D1, SP in X;
+        intro R; rewrite R in X; apply X; discriminate.
+    - intros [= <-]. pose proof (dry_pure off v RDir (c :: par) (init m None) eq_refl) as X. rewrite D in X. exact X.
+    - discriminate. }
+  destruct v; try (intros [= <-]; reflexivity); exact G.
+Qed.
